@@ -230,7 +230,9 @@ def execute(case: dict) -> dict:
                     V("C12", "wouldblock-with-room", {"stats": tuple(st)})
             except ClosedResourceError:
                 h.ev(a.name, "send-closed", item)
-                if not closed_self:
+                # (a handle closed by a third party between the call and its first
+                # checkpoint may be reported closed: judged by the state at the raise)
+                if not closed_self and a.name in open_s:
                     V("C13", "closed-error-on-open-handle", {"op": "send", "actor": a.name})
             except BrokenResourceError:
                 h.ev(a.name, "send-broken", item)
@@ -285,7 +287,7 @@ def execute(case: dict) -> dict:
                     V("C12", "wouldblock-with-item-available", {"stats": tuple(st0)})
             except ClosedResourceError:
                 h.ev(a.name, "recv-closed")
-                if not closed_self:
+                if not closed_self and a.name in open_r:
                     V("C13", "closed-error-on-open-handle", {"op": "receive", "actor": a.name})
             except EndOfStream:
                 h.ev(a.name, "recv-eos")
@@ -422,6 +424,35 @@ def execute(case: dict) -> dict:
                         audit("agent-close-R")
 
                 h.add_agent(ag["at"], ag["place"], closer, f"close-spare-{side}")
+                continue
+
+            if "close_actor" in ag:
+                # a third party closes the handle an actor is using -- possibly while that
+                # actor is blocked in send()/receive() on it (judged by the handle's state
+                # at the instant each operation was INVOKED)
+                tgt = actors[ag["close_actor"]]
+
+                def close_other(tgt: Actor = tgt) -> None:
+                    role = specs[tgt.name]["role"]
+                    opened = open_s if role == "S" else open_r
+                    if tgt.name not in opened:
+                        return
+
+                    if tgt in sends_inprog:
+                        out["nontrivial"] = True
+                        window("third_party_close_during_blocked_send")
+                    elif tgt in recvs_inprog:
+                        out["nontrivial"] = True
+                        window("third_party_close_during_blocked_receive")
+
+                    opened.discard(tgt.name)
+                    handles[tgt.name].close()
+                    if role == "R" and not open_r:
+                        receive_side_now_closed()
+
+                    audit("agent-close-actor-handle")
+
+                h.add_agent(ag["at"], ag["place"], close_other, f"close-handle-of->{tgt.name}")
                 continue
 
             victim = actors[ag["victim"]]
@@ -687,6 +718,10 @@ def gen_c13(rng: random.Random, cfgs: list[str]) -> dict:
         agents.append({"at": rng.randint(0, 12), "place": rng.choice(["before", "after"]),
                        "victim": rng.randrange(len(actors))})  # fmt: skip
 
+    for _ in range(rng.choice([0, 0, 0, 1, 2, 3])):
+        agents.append({"at": rng.randint(0, 12), "place": rng.choice(["before", "after"]),
+                       "close_actor": rng.randrange(len(actors))})  # fmt: skip
+
     return {"cfg": rng.choice(cfgs), "cap": rng.choice([0, 0, 1, 2, "inf"]), "actors": actors,
             "agents": agents, "spare_r": spare_r, "spare_s": spare_s}  # fmt: skip
 
@@ -724,3 +759,34 @@ def sweep_c13(cfgs: list[str]):  # noqa: ANN201
                         yield {"cfg": cfg, "cap": cap, "actors": actors,
                                "agents": [{"at": at, "place": place, "close_spare": "R"}],
                                "spare_s": False, "spare_r": True}  # fmt: skip
+                        if at > 6:
+                            continue
+
+                        # k senders blocked on their own handles; a third party closes every
+                        # send handle under them; only then does the receiver start: it must
+                        # get the pending items in order, then EndOfStream; senders return
+                        for gap in (0, 1, 3):
+                            actors = [
+                                {"role": "S", "mode": "scope", "ops": [["send", i, False]]}
+                                for i in range(k)
+                            ] + [
+                                {"role": "R", "mode": "scope",
+                                 "ops": [["recv", at + gap + 2, gap == 1]]
+                                 + [["recv", 0, False]] * k},
+                            ]  # fmt: skip
+                            yield {"cfg": cfg, "cap": cap, "actors": actors,
+                                   "agents": [{"at": at + (i if gap else 0), "place": place,
+                                               "close_actor": i} for i in range(k)],
+                                   "spare_s": False, "spare_r": False}  # fmt: skip
+                            # mirror image: blocked receivers whose handles are closed under them
+                            actors = [
+                                {"role": "R", "mode": "scope", "ops": [["recv", i, False]]}
+                                for i in range(k)
+                            ] + [
+                                {"role": "S", "mode": "scope",
+                                 "ops": [["send", at + gap + 2, gap == 1], ["close", 1, False]]},
+                            ]  # fmt: skip
+                            yield {"cfg": cfg, "cap": cap, "actors": actors,
+                                   "agents": [{"at": at + (i if gap else 0), "place": place,
+                                               "close_actor": i} for i in range(k)],
+                                   "spare_s": False, "spare_r": False}  # fmt: skip
